@@ -145,6 +145,29 @@ func init() {
 					_ = ms
 					c.Case(0, true, out)
 				}})
+			// nested items that each declare a (huge) size: the declared sizes are checks, not allocation hints
+			szs := []string{"16777215", "16777216", "65536", "4294967295"}
+			ndep := []int{1, 2, 4, 8, 16, 32, 64, 256}
+			sp = append(sp, h.Space{Name: "nested-lists-with-declared-sizes", Count: uint64(len(szs) * len(ndep) * 3), ChunkHint: 1,
+				Describe: func(i uint64) interface{} {
+					d := unrank(i, len(szs), len(ndep), 3)
+					return fmt.Sprintf("%d nested <L[%s] ... (variant %d)", ndep[d[1]], szs[d[0]], d[2])
+				},
+				Run: func(c *h.Ctx, i uint64) {
+					d := unrank(i, len(szs), len(ndep), 3)
+					open := "<L[" + szs[d[0]] + "] "
+					var text string
+					switch d[2] {
+					case 0:
+						text = "S1F1 " + strings.Repeat(open, ndep[d[1]]) + strings.Repeat(">", ndep[d[1]]) + " ."
+					case 1:
+						text = "S1F1 " + strings.Repeat(open+"<A[16777215] \"a\"> ", ndep[d[1]]) + strings.Repeat(">", ndep[d[1]]) + " ."
+					default:
+						text = "S1F1 " + strings.Repeat("<L["+szs[d[0]]+"..] <U1["+szs[d[0]]+"] 1> ", ndep[d[1]])
+					}
+					_, out := totalParse(c, "nested-sizes", text)
+					c.Case(0, true, out)
+				}})
 			// every Unicode White_Space rune, and every single byte, first in each lexer state and between tokens
 			spaces := []string{"\t", "\n", "\v", "\f", "\r", " ", "\u0085", "\u00a0", "\u1680", "\u2000", "\u2001", "\u2002", "\u2003", "\u2004", "\u2005",
 				"\u2006", "\u2007", "\u2008", "\u2009", "\u200a", "\u2028", "\u2029", "\u202f", "\u205f", "\u3000", "\ufeff", "\u200b", "\xc2", "\xa0", "\x85", "\xe2\x80", "\x00"}
@@ -159,6 +182,39 @@ func init() {
 					d := unrank(i, len(spaces), len(tmpl))
 					text := strings.Replace(tmpl[d[1]], "%s", spaces[d[0]], 1)
 					ms, out := totalParse(c, "space", text)
+					for _, m := range ms {
+						fixedPoint(c, "accepted", "sml.Parse("+strconv.Quote(text)+")", m)
+					}
+					c.Case(0, true, out)
+				}})
+			// bursts of adjacent single-character tokens (no separator): compactly closed nestings and stray runs
+			runs := []int{1, 2, 3, 4, 8, 15, 16, 17, 18, 31, 32, 33, 64, 65, 100, 257}
+			chs := []string{">", "<", ".", "<L", "<L>", "\"\"", "[1]", "...", "x ", "1 ", "T"}
+			sp = append(sp, h.Space{Name: "runs-of-adjacent-tokens", Count: uint64(len(runs) * len(chs) * 3),
+				Describe: func(i uint64) interface{} {
+					d := unrank(i, len(runs), len(chs), 3)
+					return fmt.Sprintf("%d x %q in context %d", runs[d[0]], chs[d[1]], d[2])
+				},
+				Run: func(c *h.Ctx, i uint64) {
+					d := unrank(i, len(runs), len(chs), 3)
+					n, ch := runs[d[0]], chs[d[1]]
+					var text string
+					switch d[2] {
+					case 0: // balanced compact nesting closed by a run of '>' (or the run inside a list)
+						if ch == ">" {
+							text = "S1F1 " + strings.Repeat("<L", n) + strings.Repeat(">", n) + "."
+						} else {
+							text = "S1F1 <L " + strings.Repeat(ch, n) + "> ."
+						}
+					case 1:
+						text = "S1F1 " + strings.Repeat(ch, n) + " ."
+					default:
+						text = "S1F1 <A " + strings.Repeat(ch, n)
+					}
+					ms, out := totalParse(c, "token-run", text)
+					if d[2] == 0 && ch == ">" && out == "rejected" {
+						c.Fail("valid-nesting-rejected", strconv.Quote(text), "rejected")
+					}
 					for _, m := range ms {
 						fixedPoint(c, "accepted", "sml.Parse("+strconv.Quote(text)+")", m)
 					}
